@@ -328,7 +328,7 @@ func c08scenarios(res *report.Result) []schedrun.Scenario {
 			b = 0
 		}
 		w := []int{1, 800, 300000}[b]
-		out = append(out, schedrun.Scenario{Name: p.name(), Mode: explore.Delay, Bound: b, MaxSteps: 400000, Weight: w})
+		out = append(out, schedrun.Scenario{Name: p.name(), Mode: explore.Delay, Bound: b, MaxSteps: 400000, Weight: w, Postpone: b > 0})
 	}
 	return out
 }
